@@ -989,3 +989,180 @@ Proof.
   split; [exact A2|]. split; [exact A1|]. split; [rewrite A3; symmetry; apply (mag_sig x D S)|].
   split; [exact A4|]. auto.
 Qed.
+
+(* ------------------------------------------------------------------ *)
+(* 'g' / 'G' with precision -1 is the 'e' / 'E' or the 'f' output *)
+
+Lemma text_g x D : SigDigits x D -> dform x = Ffinite ->
+  Text x 103 (-1) = (if (exp x - 1 <? -4) || (6 <=? exp x - 1) then Text x 101 (-1) else Text x 102 (-1)) /\
+  Text x 71 (-1) = (if (exp x - 1 <? -4) || (6 <=? exp x - 1) then Text x 69 (-1) else Text x 102 (-1)).
+Proof.
+  intros S Hf. pose proof (sd_minprec x D S) as Hmp.
+  unfold Text, Append, mexp. rewrite Hf, Hmp.
+  cbv beta iota zeta. cbn [Z.eqb Pos.eqb is_eE is_gG orb andb Z.ltb Z.compare app].
+  rewrite Hmp. cbv beta iota zeta. rewrite ?Hf.
+  change (71 + 101 - 103) with 69. change (103 + 101 - 103) with 101.
+  replace (zlen D <? zlen D) with false by (symmetry; apply Z.ltb_irrefl).
+  cbn [andb]. cbv iota.
+  replace (Z.max (zlen D - exp x) 0) with (Z.max ((if exp x <? zlen D then zlen D else zlen D) - exp x) 0)
+    by (destruct (exp x <? zlen D); reflexivity).
+  split; destruct ((exp x - 1 <? -4) || (6 <=? exp x - 1)); reflexivity.
+Qed.
+
+(* ------------------------------------------------------------------ *)
+(* parsing  [-] I [ . F ]  (no exponent part) in base 10 *)
+
+Lemma mant_plain_int I : all_digits I = true -> I <> [] ->
+  mant_loop 10 10 I true 0 false 0 (-1) 0 = mkM [] 1 false (zlen I) (-1) (digval I 0).
+Proof.
+  intros HI Hne. rewrite <- (app_nil_r I) at 1. rewrite (mant_loop_digits 10 I HI).
+  cbn [mant_loop]. destruct I; [congruence|reflexivity].
+Qed.
+
+Lemma mant_plain_frac I F : all_digits I = true -> I <> [] -> all_digits F = true -> F <> [] ->
+  mant_loop 10 10 (I ++ 46 :: F) true 0 false 0 (-1) 0 =
+    mkM [] 1 false (zlen I + zlen F) (zlen I) (digval (I ++ F) 0).
+Proof.
+  intros HI Hne HF HneF. rewrite (mant_loop_digits 10 I HI).
+  cbn [mant_loop]. change (46 =? 46) with true. cbn [andb].
+  rewrite <- (app_nil_r F) at 1. rewrite (mant_loop_digits 10 F HF). cbn [mant_loop].
+  rewrite digval_app. destruct I; [congruence|]. destruct F; [congruence|]. reflexivity.
+Qed.
+
+Lemma parse_plain z ng I F :
+  all_digits I = true -> I <> [] -> all_digits F = true ->
+  let s := sign_bytes ng ++ I ++ opt_frac F in
+  let v := digval (I ++ F) 0 in
+  let e := - zlen F in
+  0 < v -> ndig v + 18 < 4294967296 - 18 -> zlen F < 4294967296 -> 0 <= prec z <= MaxPrec ->
+  MinExp <= ndig v + e <= MaxExp ->
+  let p := if prec z =? 0 then DefaultDecimalPrec else prec z in
+  exists z', Parse z s 10 = POk z' 10 [] /\
+    result_spec p (dmode z) ng (scaled v e) z' /\ prec z' = p /\ dmode z' = dmode z /\ WF z'.
+Proof.
+  intros HI HneI HF s v e Hv Hlen HlenF Hprec HE p.
+  set (body := I ++ opt_frac F).
+  assert (exists i0 I0, I = i0 :: I0) as (i0 & I0 & EI) by (destruct I; [congruence|eauto]).
+  assert (Hi0 : is_digit i0 = true).
+  { rewrite EI in HI. cbn [all_digits forallb] in HI. now apply andb_true_iff in HI as [H _]. }
+  assert (Hsign : scanSign (sign_bytes ng ++ body) = Some (ng, body)).
+  { unfold sign_bytes, body. rewrite EI. destruct ng; cbn [app scanSign].
+    - reflexivity.
+    - destruct (digit_facts i0 Hi0) as (_ & _ & E43 & E45 & _). now rewrite E45, E43. }
+  assert (Hscan : exists ds, dec_scan 10 body = Some ds /\ ds_err ds = false /\ ds_b ds = 10 /\
+            ds_val ds = v /\ ds_rest ds = [] /\ Z.min (ds_count ds) 0 = - zlen F /\ - 4294967296 < ds_count ds).
+  { rewrite dec_scan_10. eexists. split; [reflexivity|]. unfold body.
+    assert (HzI : 1 <= zlen I) by (rewrite EI, zlen_cons; pose proof (zlen_nonneg I0); lia).
+    destruct F as [|f0 F0].
+    - cbn [opt_frac]. rewrite app_nil_r. rewrite mant_plain_int by assumption.
+      cbn [m_rest m_acc m_dp m_count m_inval m_prev ds_err ds_b ds_val ds_rest ds_count].
+      unfold v. rewrite app_nil_r. change (zlen (@nil Z)) with 0.
+      replace (0 <=? -1) with false by reflexivity.
+      replace (zlen I =? 0) with false by (symmetry; apply Z.eqb_neq; lia).
+      repeat split; try reflexivity; lia.
+    - cbn [opt_frac]. set (F := f0 :: F0) in *.
+      rewrite mant_plain_frac; [|assumption|assumption|assumption|discriminate].
+      cbn [m_rest m_acc m_dp m_count m_inval m_prev ds_err ds_b ds_val ds_rest ds_count].
+      pose proof (zlen_nonneg F).
+      replace (0 <=? zlen I) with true by (symmetry; apply Z.leb_le; lia).
+      replace (zlen I + zlen F =? 0) with false by (symmetry; apply Z.eqb_neq; lia).
+      repeat split; try reflexivity; lia. }
+  destruct Hscan as (ds & Hds & Herr & Hb & Hval & Hrest & Hcnt & Hcnt2).
+  assert (Hsx : scanExponent (10 =? 0) (ds_rest ds) = mkES [] 0 10 false) by (rewrite Hrest; reflexivity).
+  pose proof (parse10_correct z (sign_bytes ng ++ body) 10 ng body ds Hsign Hds Herr Hb) as HP.
+  rewrite Hsx in HP. cbn [es_err es_base es_exp es_rest] in HP.
+  rewrite Hval in HP.
+  specialize (HP eq_refl eq_refl Hv Hlen Hcnt2 Hprec).
+  cbv zeta in HP. destruct HP as [HP _]. rewrite Hcnt, Z.add_0_r in HP.
+  destruct (HP HE) as (z' & Hrun & Hspec & Hp' & Hm' & Hwf').
+  exists z'. split; [|auto].
+  unfold s. fold body. rewrite Parse_scan.
+  - rewrite Hrun. reflexivity.
+  - intros c t Ect. unfold sign_bytes, body in Ect. rewrite EI in Ect.
+    destruct (digit_not_inf i0 Hi0) as (A1 & A2 & _).
+    destruct ng; cbn [app] in Ect; injection Ect as <- <-.
+    + split; [lia|]. split; [lia|]. intros c2 t2 E2. injection E2 as <- _. auto.
+    + split; [exact A1|]. split; [exact A2|]. intros c2 t2 E2.
+      destruct I0 as [|i1 I1].
+      * destruct F as [|f0 F0]; cbn [opt_frac app] in E2; [discriminate|]. injection E2 as <- _. lia.
+      * cbn [app] in E2. injection E2 as <- _.
+        rewrite EI in HI. cbn [all_digits forallb] in HI. apply andb_true_iff in HI as [_ HI].
+        apply andb_true_iff in HI as [HI _]. destruct (digit_not_inf i1 HI) as (B1 & B2 & _). auto.
+Qed.
+
+(* ------------------------------------------------------------------ *)
+(* the 'f' format with precision -1 *)
+
+Definition f_int (D : bytes) (e : Z) : bytes :=
+  if zlen D <=? e then D ++ zeros (e - zlen D)
+  else if 0 <? e then firstn (Z.to_nat e) D
+  else [48].
+Definition f_frac (D : bytes) (e : Z) : bytes :=
+  if zlen D <=? e then []
+  else if 0 <? e then skipn (Z.to_nat e) D
+  else zeros (- e) ++ D.
+
+Lemma firstn_app_le {A} (l r : list A) k : (k <= length l)%nat -> firstn k (l ++ r) = firstn k l.
+Proof.
+  intros H. rewrite firstn_app. replace (k - length l)%nat with O by lia. cbn. now rewrite app_nil_r.
+Qed.
+
+Lemma skipn_app_le {A} (l r : list A) k : (k <= length l)%nat -> skipn k (l ++ r) = skipn k l ++ r.
+Proof.
+  intros H. rewrite skipn_app. replace (k - length l)%nat with O by lia. reflexivity.
+Qed.
+
+Lemma text_f x D : SigDigits x D -> dform x = Ffinite ->
+  Text x 102 (-1) = Some (sign_bytes (neg x) ++ f_int D (exp x) ++ opt_frac (f_frac D (exp x))).
+Proof.
+  intros S Hf. destruct (sd_toa x D S) as (t & Ht & Htoa & Htrim & _).
+  pose proof (sd_minprec x D S) as Hmp. destruct (sd_len x D S) as [Hn1 _].
+  pose proof (zlen_nonneg D) as HzD.
+  unfold Text, Append, mexp. rewrite Hf, Hmp.
+  cbv beta iota zeta. cbn [Z.eqb Pos.eqb is_eE is_gG orb andb Z.ltb Z.compare app].
+  rewrite Hmp. cbv beta iota zeta. rewrite ?Hf.
+  unfold fmtF. rewrite Htoa, Hmp. unfold blen. rewrite zlen_app, zeros_len by lia.
+  set (e := exp x) in *. set (n := zlen D) in *. fold (sign_bytes (neg x)).
+  unfold f_int, f_frac. fold n.
+  destruct (Z.leb_spec n e) as [Hge|Hlt].
+  - (* integer *)
+    replace (0 <? e) with true by (symmetry; apply Z.ltb_lt; lia).
+    replace (Z.min n e) with n by lia.
+    replace (n + t <? n) with false by (symmetry; apply Z.ltb_ge; lia).
+    replace (Z.max (n - e) 0) with 0 by lia. change (0 <? 0) with false. cbv iota.
+    rewrite firstn_app_le by (unfold n, zlen; lia).
+    replace (Z.to_nat n) with (length D) by (unfold n, zlen; lia). rewrite firstn_all.
+    cbn [opt_frac]. now rewrite !app_nil_r.
+  - destruct (Z.ltb_spec 0 e) as [Hpos|Hnp].
+    + (* digits on both sides of the point *)
+      replace (Z.min n e) with e by lia.
+      replace (n + t <? e) with false by (symmetry; apply Z.ltb_ge; lia).
+      replace (Z.max (n - e) 0) with (n - e) by lia.
+      replace (0 <? n - e) with true by (symmetry; apply Z.ltb_lt; lia). cbv iota zeta.
+      replace (Z.min (n - e) (Z.max 0 (- e))) with 0 by lia.
+      replace (Z.max e 0) with e by lia.
+      rewrite firstn_app_le by (unfold n, zlen in *; lia).
+      rewrite skipn_app_le by (unfold n, zlen in *; lia).
+      rewrite Z.sub_0_r.
+      assert (Hsk : zlen (skipn (Z.to_nat e) D) = n - e) by (rewrite zlen_skipn by (unfold n, zlen in *; lia); lia).
+      rewrite ?firstn_app_le by (unfold zlen in Hsk; lia).
+      rewrite firstn_all2 by (unfold zlen in Hsk; lia).
+      rewrite Hsk. replace (n - e - (n - e)) with 0 by lia. replace (e - e) with 0 by lia.
+      change (zeros 0) with (@nil Z). cbn [app]. rewrite !app_nil_r.
+      assert (Hne : skipn (Z.to_nat e) D <> []).
+      { intros E0. rewrite E0 in Hsk. change (zlen (@nil Z)) with 0 in Hsk. lia. }
+      destruct (skipn (Z.to_nat e) D) eqn:Es; [congruence|]. reflexivity.
+    + (* 0.000ddd *)
+      replace (Z.max (n - e) 0) with (n - e) by lia.
+      replace (0 <? n - e) with true by (symmetry; apply Z.ltb_lt; lia). cbv iota zeta.
+      replace (Z.min (n - e) (Z.max 0 (- e))) with (- e) by lia.
+      replace (Z.max e 0) with 0 by lia. cbn [Z.to_nat skipn].
+      replace (n - e - - e) with n by lia.
+      rewrite firstn_app_le by (unfold n, zlen; lia).
+      replace (Z.to_nat n) with (length D) by (unfold n, zlen; lia). rewrite firstn_all.
+      replace (n - zlen D) with 0 by (unfold n; lia). change (zeros 0) with (@nil Z). rewrite app_nil_r.
+      destruct (zeros (- e) ++ D) eqn:Ez.
+      { exfalso. apply (f_equal (@zlen Z)) in Ez. rewrite zlen_app, zeros_len in Ez by lia.
+        change (zlen (@nil Z)) with 0 in Ez. unfold n in *. lia. }
+      cbn [opt_frac app]. reflexivity.
+Qed.
